@@ -6,6 +6,10 @@ theorem write_spec (c : WConn) (p : Bytes) :
     (c.write p).1.log = c.log ++ p.take (c.write p).2.1 ∧ (c.write p).2.1 ≤ p.length ∧
     ((c.write p).2.2 = .ok → (c.write p).2.1 = p.length) := by
   unfold WConn.write
+  by_cases he : p.isEmpty = true
+  · have : p = [] := by cases p <;> simp_all
+    subst this; simp
+  simp only [he, Bool.false_eq_true, if_false]
   cases hp : c.policy with
   | nil => simp
   | cons e rest =>
